@@ -107,6 +107,7 @@ func runC10(r *Report, p *Program) {
 	c10R6(h)
 	c10R7(h)
 	c10R8(h)
+	c10R9(h)
 }
 
 // c10R6: the cursor protocol that the parser's exceptions rest on.
